@@ -25,7 +25,8 @@ RULE = ('(ii) for every mutating operation of a table of ~30 operations (all sto
 DISTINCT = ('failpoints', 'unencodable_cases', 'concurrent_schedules')
 REQUIRED = ('failpoints_injected', 'ops_with_all_gates_enumerated', 'unencodable_values', 'lock_timeouts',
             'history_calls', 'concurrent_programs', 'failures_after_file_written', 'expired_file_row_paths',
-            'failures_injected_into_concurrent_programs', 'handles_opened_during_concurrent_programs')
+            'failures_injected_into_concurrent_programs', 'handles_opened_during_concurrent_programs',
+            'timeouts_under_commit_contention')
 ASSUMPTIONS = ('fault model: a statement other than COMMIT/ROLLBACK fails (SQLite rolls the statement back), a file '
                'operation other than unlink/rmdir fails; a failing unlink makes the property unsatisfiable for any '
                'implementation and is outside the model', 'single failure per operation')
@@ -525,6 +526,10 @@ def run_shard(tier, seed, shard, nshards, res):
         expired_file_rows(dc, sc, res, shard, nshards)
         rng = common.rng_for(seed, 'c08', shard)
         lock_timeouts(dc, sc, res, rng)
+        probe.reset()
+        for i in range(2 if tier == 'quick' else 10):
+            c05.commit_contention(dc, sc, res, common.rng_for(seed, 'c08c', shard, i), 'c08 commit contention shard=%d i=%d' % (shard, i))
+        probe.install()
         # (i) histories with the invariant after each call + check() at the end
         cfgs = c03.configs()
         for i in range(2 if tier == 'quick' else 20):
